@@ -634,7 +634,8 @@ fn util_check<F: WithSmallOrderMulGroup<3> + Ord>(fname: &str, case: &UtilCase) 
     type Out<F> = (F, Option<Vec<F>>, Option<Vec<F>>, F, Vec<u64>);
     let out: Out<F> = in_pool_catch(t, || {
         let ev = eval_polynomial(&a, x);
-        let (kd, kd2) = if len >= 1 { (Some(kate_division(&a, x)), Some(kate_division(&a2, x))) } else { (None, None) };
+        // (the empty coefficient list is the zero polynomial: empty quotient)
+        let (kd, kd2) = (Some(kate_division(&a, x)), Some(kate_division(&a2, x)));
         let ip = compute_inner_product(&a, &b);
         let mut marks = vec![0u64; len];
         parallelize(&mut marks, |chunk, offset| {
@@ -648,14 +649,16 @@ fn util_check<F: WithSmallOrderMulGroup<3> + Ord>(fname: &str, case: &UtilCase) 
     let (ev, kd, kd2, ip, marks) = out;
     ensure!(ev == horner(&a, x), "eval_polynomial", "{}: differs from Horner evaluation", ctx());
     if let (Some(q), Some(q2)) = (kd, kd2) {
-        ensure!(q.len() == len - 1, "kate_division:len", "{}: quotient has {} coefficients", ctx(), q.len());
+        ensure!(q.len() == len.saturating_sub(1), "kate_division:len", "{}: quotient has {} coefficients", ctx(), q.len());
         // multiply back: q (X - x) + p(x) == p
         let mut back = vec![F::ZERO; len];
         for (i, c) in q.iter().enumerate() {
             back[i + 1] += c;
             back[i] -= *c * x;
         }
-        back[0] += horner(&a, x);
+        if len >= 1 {
+            back[0] += horner(&a, x);
+        }
         ensure!(back == a, "kate_division", "{}: q (X - b) + p(b) != p", ctx());
         ensure!(q2 == q0, "kate_division", "{}: (q0 (X - b)) / (X - b) != q0", ctx());
     }
@@ -1209,7 +1212,7 @@ fn field_suite<F: WithSmallOrderMulGroup<3> + Ord>(p: &Prop, fname: &'static str
     );
     p.sub(
         &format!("poly.utils.{fname}"),
-        "coefficient vectors of every length 0..70 and sampled up to 4096 x pools x classes x points {0,1,-1,random}: eval_polynomial vs Horner; kate_division multiplied back (q (X-b) + p(b) = p) and exact division recovers the quotient (length >= 1); compute_inner_product; parallelize visits every index exactly once with the right offset; non-trivial = length >= 2 and polynomial not zero",
+        "coefficient vectors of every length 0..70 and sampled up to 4096 x pools x classes x points {0,1,-1,random}: eval_polynomial vs Horner; kate_division multiplied back (q (X-b) + p(b) = p) and exact division recovers the quotient (empty input: empty quotient); compute_inner_product; parallelize visits every index exactly once with the right offset; non-trivial = length >= 2 and polynomial not zero",
         p.tier.pick(2_400, 80_000) / scale,
         16,
         || util_strategy(4096),
